@@ -191,8 +191,18 @@ def handle (j : Json) : Json :=
         let kept := mapEq implW.cpuMap origin.cpuMap && implW.numa == origin.numa
         let c33 := if inScope && !kept then ["C33:moved:" ++ c33Class B info origin.cpuMap] else []
         let info' : NodeInfo := { info with use := info.use.sub { cpuMap := origin.cpuMap, mem := origin.memReq, numaMem := origin.numaMem } }
-        let viol := if nodeOk && cfgOk && !implW.cpuMap.isEmpty then
-            planViolations info' B implW.cpuReq.toNat 1000 implW.memReq [⟨implW.numa, implW.cpuMap⟩] else []
+        let implD := workloadOfJson (jget impl "d")
+        -- C05, second sentence, on the realloc result: recorded cpu_request × base = Σ pieces of the map,
+        -- for the new workload resource and (when the old record was consistent) for the delta
+        let rec1 := if nodeOk && cfgOk && !implW.cpuMap.isEmpty &&
+            !(nearestPieces implW.cpuReq.toNat 1000 B (planTotal implW.cpuMap) && decide (0 ≤ implW.cpuReq))
+          then ["C05:recorded:realloc"] else []
+        let rec2 := if nodeOk && cfgOk && !implW.cpuMap.isEmpty && !origin.cpuMap.isEmpty && recordedOk B origin && jhas impl "d" &&
+            !(decide (2 * (implD.cpuReq * B - 1000 * planTotal implD.cpuMap).natAbs ≤ 1000) &&
+              decide (implD.cpuReq = implW.cpuReq - origin.cpuReq))
+          then ["C05:recorded:realloc-delta"] else []
+        let viol := (if nodeOk && cfgOk && !implW.cpuMap.isEmpty then
+            planViolations info' B implW.cpuReq.toNat 1000 implW.memReq [⟨implW.numa, implW.cpuMap⟩] else []) ++ rec1 ++ rec2
         mk exact (outJ wlJ m) (viol ++ c33)
           (if !nodeOk then "invalid-node" else if exact then (if inScope then "realloc" else "realloc-out-of-scope") else "realloc-mismatch") false
   else
